@@ -3,7 +3,7 @@
 # usage: tools/run_mutant.sh <seeded-name> <check-id>...
 set -u
 NAME="$1"; shift
-WT=/tmp/wt-m
+WT="${MUTANT_WT:-/tmp/wt-m}"
 [ -d "$WT" ] || git -C /repo worktree add -q --detach "$WT" HEAD
 cd "$WT" && git checkout -q -- . && git checkout -q --detach "$(git -C /repo rev-parse HEAD)" 2>/dev/null
 git apply "/verif/seeded/$NAME/patch.diff" || { echo "patch does not apply to current HEAD"; exit 2; }
